@@ -25,6 +25,7 @@ type BoundedSpec struct {
 	Pkg  string `json:"pkg"`
 	Test string `json:"test"`
 	What string `json:"what"`
+	Race bool   `json:"race"` // run under the race detector (go test -race)
 }
 
 func runBounded(v *Verifier, root, repo, prop string, b BoundedSpec, tier string, seed int) BoundedResult {
@@ -34,7 +35,15 @@ func runBounded(v *Verifier, root, repo, prop string, b BoundedSpec, tier string
 	if tier == "thorough" {
 		timeout = 900 * time.Second
 	}
-	_, out := runHarnessX(repo, root, b.File, b.Pkg, b.Test, env, timeout, nil)
+	var extra []string
+	if b.Race {
+		extra = []string{"-race"}
+		timeout *= 3
+	}
+	_, out := runHarnessX(repo, root, b.File, b.Pkg, b.Test, env, timeout, extra)
+	if b.Race && strings.Contains(out, "WARNING: DATA RACE") {
+		out += "\nBOUNDED-VIOLATION name=" + b.Name + " the race detector reported a data race: " + firstLines(out[strings.Index(out, "WARNING: DATA RACE"):], 12) + "\n"
+	}
 	info := map[string]interface{}{"name": b.Name, "kind": "bounded stand-in (exhaustive up to the stated bound; NOT a proof)", "what": b.What,
 		"harness": "replaygen/" + b.File, "package": b.Pkg, "test": b.Test}
 	var checks []map[string]interface{}
